@@ -768,19 +768,18 @@ end Safe
 
 namespace Safe
 
-theorem writeAll_append (f : File) (a c : List Bytes) (o : Option Nat) :
-    writeAll f (a ++ c) o =
-      if (writeAll f a o).1 = .ok then
-        ((writeAll f c (o.map (· - a.length))).1, (writeAll f a o).2 ++ (writeAll f c (o.map (· - a.length))).2)
-      else writeAll f a o := by
+theorem writeAll_append (tmp dst : Path) (a c : List Bytes) (o : Option Nat) :
+    writeAll (openFile tmp dst) (a ++ c) o =
+      if (writeAll (openFile tmp dst) a o).1 = .ok then
+        ((writeAll (openFile tmp dst) c (o.map (· - a.length))).1,
+         (writeAll (openFile tmp dst) a o).2 ++ (writeAll (openFile tmp dst) c (o.map (· - a.length))).2)
+      else writeAll (openFile tmp dst) a o := by
   induction a generalizing o with
   | nil => simp [writeAll, map_sub_zero]
   | cons x a ih =>
     simp only [List.cons_append, writeAll]
     by_cases h0 : o = some 0
-    · simp only [h0, if_true]
-      unfold File.write
-      split <;> (try split) <;> simp
+    · simp [h0, File.write, openFile]
     · simp only [h0, if_false]
       rw [ih]
       have hm : (o.map (· - 1)).map (· - a.length) = o.map (· - (x :: a).length) := by
@@ -794,15 +793,15 @@ theorem after_err_false (f : File) (b : BW) (cs : List Bytes) (buf' : Bytes) :
   split <;> simp_all [errBW]
 
 /-- composing two rounds of chunk writing -/
-theorem after_after (f : File) (b : BW) (cs cs2 : List Bytes) (buf1 buf2 : Bytes)
-    (hok : (writeAll f cs b.failIn).1 = .ok) :
-    ((after f (after f b cs buf1).1 cs2 buf2).1, (after f b cs buf1).2 ++ (after f (after f b cs buf1).1 cs2 buf2).2) =
-      after f b (cs ++ cs2) buf2 := by
+theorem after_after (tmp dst : Path) (b : BW) (cs cs2 : List Bytes) (buf1 buf2 : Bytes)
+    (hok : (writeAll (openFile tmp dst) cs b.failIn).1 = .ok) :
+    ((after (openFile tmp dst) (after (openFile tmp dst) b cs buf1).1 cs2 buf2).1,
+      (after (openFile tmp dst) b cs buf1).2 ++ (after (openFile tmp dst) (after (openFile tmp dst) b cs buf1).1 cs2 buf2).2) =
+      after (openFile tmp dst) b (cs ++ cs2) buf2 := by
   have hm : (b.failIn.map (· - cs.length)).map (· - cs2.length) = b.failIn.map (· - (cs ++ cs2).length) := by
     cases b.failIn <;> simp; omega
   unfold after
   simp only [hok, if_true, writeAll_append, hm]
-  split <;> simp_all
 
 /-- once the sticky error is set a callback that keeps writing does not touch the file any more -/
 theorem callback_keep_err (N : Nat) (f : File) (b : BW) (hb : b.err = true) (ps : List Bytes) :
@@ -839,12 +838,14 @@ theorem callback_sim (N : Nat) (tmp dst : Path) (cb : CbMode) (ps : List Bytes) 
         simp [after, hok]
       simp only [herr, Bool.false_eq_true, false_and, if_false]
       rw [ih _ herr, hbuf]
-      have hc := after_after (openFile tmp dst) b (bufWrite N b.buf p).1 (feed N (bufWrite N b.buf p).2 ps).1
+      have hc := after_after tmp dst b (bufWrite N b.buf p).1 (feed N (bufWrite N b.buf p).2 ps).1
         (bufWrite N b.buf p).2 (feed N (bufWrite N b.buf p).2 ps).2 hok
       have h1 := congrArg Prod.fst hc
       have h2 := congrArg Prod.snd hc
       simp only at h1 h2
-      rw [h1, h2]
+      rw [h2]
+      simp only [h1]
+      congr
     · -- a write failed: the sticky error is set
       have hafter : after (openFile tmp dst) b (bufWrite N b.buf p).1 (bufWrite N b.buf p).2 =
           (errBW, (writeAll (openFile tmp dst) (bufWrite N b.buf p).1 b.failIn).2) := by
@@ -852,7 +853,7 @@ theorem callback_sim (N : Nat) (tmp dst : Path) (cb : CbMode) (ps : List Bytes) 
       have hall : after (openFile tmp dst) b ((bufWrite N b.buf p).1 ++ (feed N (bufWrite N b.buf p).2 ps).1)
           (feed N (bufWrite N b.buf p).2 ps).2 = (errBW, (writeAll (openFile tmp dst) (bufWrite N b.buf p).1 b.failIn).2) := by
         simp [after, writeAll_append, hok]
-      rw [hafter, hall]
+      simp only [hafter, hall]
       cases cb with
       | propagate => simp [errBW]
       | swallowStop => simp [errBW]
@@ -881,11 +882,95 @@ theorem callback_cbfail (N : Nat) (tmp dst : Path) (cb : CbMode) (ps : List Byte
         rw [hf]; exact writeAll_none tmp dst _
       have hafter : after (openFile tmp dst) b (bufWrite N b.buf p).1 (bufWrite N b.buf p).2 =
           ({ buf := (bufWrite N b.buf p).2, err := false, failIn := none }, (bufWrite N b.buf p).1.map (Act.write tmp)) := by
+        rw [hf] at hw
         simp [after, hw, hf]
       rw [hafter]
       simp only [Option.some.injEq, Nat.succ_ne_zero, if_false, Bool.false_eq_true, false_and, Option.map_some,
         Nat.add_sub_cancel]
       rw [ih _ j rfl rfl]
       simp
+
+end Safe
+
+namespace Safe
+
+theorem flush_sim (tmp dst : Path) (b : BW) (hb : b.err = false) :
+    b.flush (openFile tmp dst) = after (openFile tmp dst) b (flush b.buf) [] := by
+  obtain ⟨buf, err, failIn⟩ := b
+  simp only at hb; subst hb
+  unfold BW.flush flush after
+  simp only [Bool.false_eq_true, if_false]
+  split
+  · rename_i h
+    have : buf = [] := List.eq_nil_of_length_eq_zero h
+    subst this
+    simp [writeAll, map_sub_zero]
+  · by_cases h0 : failIn = some 0
+    · rw [sys_fail _ _ _ _ h0]; simp [writeAll_one, h0]
+    · rw [sys_ok _ _ _ _ h0]; simp [writeAll_one, h0]
+
+/-- faults other than a failing callback -/
+theorem writeFile_closed_nocb (tmp dst : Path) (N mode : Nat) (pieces : List Bytes) (cb : CbMode) (fault : Fault)
+    (hcb : fault.cbAt = none) (hic : fault.isCallback = false) :
+    writeFile tmp dst N mode pieces cb fault = writeFileClosed tmp dst N mode pieces fault := by
+  have hcreate : File.create tmp dst mode = (openFile tmp dst, [.createExcl tmp mode]) := rfl
+  have hatt : attempted N pieces fault = chunks N pieces := by
+    cases fault <;> first | rfl | (simp [Fault.isCallback] at hic)
+  unfold writeFile writeFileClosed
+  simp only [hcreate, hcb, hatt, hic, Bool.false_eq_true, or_false]
+  rw [callback_sim N tmp dst cb pieces _ rfl]
+  simp only
+  -- the chunks of the callback, then the chunk of the final Flush
+  have hch : chunks N pieces = (feed N [] pieces).1 ++ flush (feed N [] pieces).2 := rfl
+  generalize hcs : (feed N [] pieces).1 = cs at hch ⊢
+  generalize hbf : (feed N [] pieces).2 = buf' at hch ⊢
+  rw [hch, writeAll_append]
+  by_cases hok1 : (writeAll (openFile tmp dst) cs fault.writeAt).1 = .ok
+  · -- every chunk of the callback was written; Flush writes the rest (or fails)
+    have hA : after (openFile tmp dst) { failIn := fault.writeAt } cs buf' =
+        ({ buf := buf', err := false, failIn := fault.writeAt.map (· - cs.length) },
+         (writeAll (openFile tmp dst) cs fault.writeAt).2) := by
+      simp [after, hok1]
+    simp only [hA, Bool.false_eq_true, false_and, if_false, hok1, if_true, ne_eq, not_true_eq_false]
+    rw [flush_sim tmp dst _ rfl]
+    simp only
+    by_cases hok2 : (writeAll (openFile tmp dst) (flush buf') (fault.writeAt.map (· - cs.length))).1 = .ok
+    · simp [after, hok2, List.append_assoc]
+    · have he := writeAll_res tmp dst (flush buf') (fault.writeAt.map (· - cs.length))
+      have he' : (writeAll (openFile tmp dst) (flush buf') (fault.writeAt.map (· - cs.length))).1 = .errno := by
+        rcases he with h | h
+        · exact absurd h hok2
+        · exact h
+      simp only [after, hok2, he', if_false, errBW, if_true, ne_eq, reduceCtorEq, not_false_eq_true]
+      simp [List.append_assoc, File.close, openFile]
+  · -- a write inside the callback failed: whatever the callback returns, the error comes back
+    have he := writeAll_res tmp dst cs fault.writeAt
+    have he' : (writeAll (openFile tmp dst) cs fault.writeAt).1 = .errno := by
+      rcases he with h | h
+      · exact absurd h hok1
+      · exact h
+    have hA : after (openFile tmp dst) { failIn := fault.writeAt } cs buf' =
+        (errBW, (writeAll (openFile tmp dst) cs fault.writeAt).2) := by
+      simp [after, hok1]
+    simp only [hA, hok1, if_false]
+    cases cb with
+    | propagate => simp [errBW, he']
+    | swallowStop => simp [errBW, he', BW.flush]
+    | swallowKeep => simp [errBW, he', BW.flush]
+
+/-- **the statement-by-statement model equals its closed form, whatever the callback does with write errors** -/
+theorem writeFile_closed (tmp dst : Path) (N mode : Nat) (pieces : List Bytes) (cb : CbMode) (fault : Fault) :
+    writeFile tmp dst N mode pieces cb fault = writeFileClosed tmp dst N mode pieces fault := by
+  cases fault with
+  | none => exact writeFile_closed_nocb tmp dst N mode pieces cb _ rfl rfl
+  | write k => exact writeFile_closed_nocb tmp dst N mode pieces cb _ rfl rfl
+  | close => exact writeFile_closed_nocb tmp dst N mode pieces cb _ rfl rfl
+  | rename => exact writeFile_closed_nocb tmp dst N mode pieces cb _ rfl rfl
+  | callback j =>
+    have hcreate : File.create tmp dst mode = (openFile tmp dst, [.createExcl tmp mode]) := rfl
+    unfold writeFile writeFileClosed
+    simp only [hcreate, Fault.cbAt, Fault.writeAt, Fault.isCallback, attempted, or_true, if_true]
+    rw [callback_cbfail N tmp dst cb pieces _ j rfl rfl, writeAll_none]
+    simp
 
 end Safe
